@@ -39,6 +39,8 @@ def dim(fn, t, depth=0):
 
 
 def run(prog):
+    _extra = manager_new(prog)
+
     out = []
     n = 0
     seen = {}
@@ -91,4 +93,60 @@ def run(prog):
     n += 1
     if n < 7:
         raise CheckerError("VX: only %d sites recognised" % n)
+    out += _extra
+    return out
+
+
+
+def manager_new(prog):
+    """VTreeManager::new wires the index spaces: every field is built from the *same* tree by the function its name says
+    (dfs_to_bfs ← dfs_to_bfs_mapping, bfs_to_dfs ← bfs_to_dfs_mapping, lca ← LeastCommonAncestor::new), and the one loop
+    over the in-order enumeration fills index_lookup by pushing every node (position = in-order index) and sets
+    vtree_index[label of a leaf] = in-order index of that leaf."""
+    fn = prog.find1(name="new", self_adt="repr::vtree::VTreeManager", unit="rsdd-lib")
+    te = fn.terms
+    r = strip(te.ret)
+    out = []
+    errs = []
+    if not (r[0] == "agg" and str(r[2]).endswith("VTreeManager")):
+        raise CheckerError("VX: VTreeManager::new does not return a VTreeManager literal")
+    names = r[5] if len(r) > 5 and r[5] else ()
+    fields = {str(n): strip(v) for n, v in zip(names, r[4])}
+    want = {"dfs_to_bfs": "dfs_to_bfs_mapping", "bfs_to_dfs": "bfs_to_dfs_mapping", "lca": "new"}
+    for f, callee in want.items():
+        v = fields.get(f)
+        if v is None or not mir.is_call(v, callee) or strip(v[2][0]) != ("param", 1):
+            errs.append("field %s is %s, expected %s(tree)" % (f, show(v)[:40] if v is not None else "missing", callee))
+    if fields.get("tree") != ("param", 1):
+        errs.append("field tree is not the constructor's tree")
+    out.append(inst("VX", "%s:fields" % fn.npath, VIOLATION if errs else OK, fn, None,
+                    "; ".join(errs) if errs else "dfs_to_bfs, bfs_to_dfs, lca, tree are built from the one tree by their namesakes"))
+    errs = []
+    en = [cs for cs in te.calls if cs.callee.name == "enumerate"]
+    if len(en) != 1 or not mir.is_call(strip(en[0].args[0]), "inorder_dfs_iter"):
+        errs.append("the index loop does not enumerate the in-order iterator")
+    stores = [st for st in te.stores if mir.is_call(strip(st[1]), "index_mut") or strip(st[1])[0] == "index"]
+    ok_store = False
+    for st in stores:
+        tgt = strip(st[1])
+        idx = strip(tgt[2][1]) if tgt[0] == "call" else strip(tgt[2])
+        val = strip(st[2])
+        if "extract_leaf" in show(idx) and "value" in show(idx) and show(val).endswith(".0.0") and "next(" in show(val):
+            ok_store = True
+            # the table written must be the one that becomes vtree_index
+            base = strip(tgt[2][0]) if tgt[0] == "call" else strip(tgt[1])
+            vi = fields.get("vtree_index")
+            if vi is not None and vi[0] == "mu" and not (isinstance(base, tuple) and base[-1] == vi[2]):
+                errs.append("the label-indexed table written in the loop is not the one stored as vtree_index")
+        elif "next(" in show(val):
+            errs.append("the loop stores %s at %s, expected in-order index at [label of the leaf]" % (show(val)[:30], show(idx)[:40]))
+    if not ok_store:
+        errs.append("vtree_index[label(leaf)] = in-order index not found")
+    pushes = [cs for cs in te.calls if cs.callee.name == "push" and "next(" in show(cs.args[1])]
+    if len(pushes) != 1 or not show(strip(pushes[0].args[1])).endswith(".0.1"):
+        errs.append("index_lookup is not filled with every node of the enumeration")
+    elif any(c for c, v, _, _ in te.facts_at(pushes[0].bb) if "is_leaf" in show(c)):
+        errs.append("index_lookup receives only some nodes (push is conditional)")
+    out.append(inst("VX", "%s:index-loop" % fn.npath, VIOLATION if errs else OK, fn, None,
+                    "; ".join(errs) if errs else "index_lookup[i] = i-th in-order node; vtree_index[label(leaf)] = its in-order index"))
     return out
